@@ -34,6 +34,17 @@ cross-correlation, half the squared total for autocorrelations): "the two sample
 that were paired, not of what the CorrFunc stores (Model: meas_pc, c04_meas_case, c04_meas_nz_case; Props:
 C04_sample_total_any_patches, C04_measured_denominator_cross / _auto, C04_term_determines_denominator,
 C04_skip_empty_agrees_populated / _refuted).
+(f) weights that are not positive: a total weight is the sum of whatever the weight column holds.  Real measurements
+(c04_meas.py: weight modes and deterministic probes) with objects of weight 0 (masked, not removed), populated (patch, bin)
+cells - whole patches of a sample read without the binning - that weigh exactly nothing (all zeros, or weights of both signs
+that cancel), bins and whole samples of total weight zero, catalogs whose only non-zero weights sit in one patch, negative
+weights; catalogs whose patch centres cannot be computed from the weights (a patch of total weight 0) are created with
+patch_centers = the nominal centres.  Hand-built containers (gen_corr_wts: zero-patches, signed, member-total-zero, one-patch,
+all-zero-bin) fresh, in n(z) triples and after call histories.  Where a total is exactly zero the term is undefined and the
+model requires nothing of it; everything that is defined (the other bins, the jackknife samples without the weightless
+patch) is compared as before (Props: C04_masked_objects_weigh_nothing, C04_cancelling_cell_leaves_total,
+C04_or_count_agrees_weighted / C04_positive_weights_no_weightless_cell / C04_or_count_refuted: "sum of weights or else the
+number of objects" is indistinguishable on positive weights and wrong on a populated weightless cell).
 (b) symbolic traces of landy_szalay, davis_peebles, NormalisedCounts.sample_patch_sum,
 RedshiftData.from_corrdata, HistData.normalised, RedshiftData.normalised are re-proved equal to
 the documented formulas by `ring` (numerator / denominator / radicand separately) on every run.
@@ -67,7 +78,11 @@ ASSUMPTIONS = [
     "catalog stores exactly these), patch ids 0..P-1; redshifts, edges and weights are dyadic rationals with few bits and rweight is off, so "
     "pair counts and weight sums are exact; every binned sample holds at least one object inside the binning in every patch (otherwise the "
     "pinned commit stops at the build_trees defect that C10 probes) and its objects are placed symmetrically about the patch centre with "
-    "equal weights so that the implementation's patch-consistency check accepts the catalogs; a refusal (InconsistentPatchesError) is "
+    "equal weights so that the implementation's patch-consistency check accepts the catalogs; a catalog in which some patch has total "
+    "weight 0 (Catalog.from_dataframe(patch_name=...) stops in np.average: no weighted centre exists) or symmetric partners of different "
+    "weight is created with patch_centers = the nominal centres instead (neighbouring centres >= 3/32 deg apart, objects <= 1/32 deg from "
+    "their centre, so nearest-centre assignment is the named patch; the number of records per patch is asserted); weights are dyadic with "
+    "at most 8 bits, of either sign or zero; a refusal (InconsistentPatchesError) is "
     "counted, not reported, and more than 20% refusals break an obligation; max_workers = 1 (the order of arrival of patch-pair results is C10's)",
     "call histories consist of the public methods listed in _jk_common.CF_OBS / SD_OBS with valid arguments and of "
     "set_patch_pair with in-range patch indices and one value per bin; arrays handed out by the containers are only "
@@ -81,7 +96,9 @@ RULE = ("cases = (subset of dr/rd/rr, auto|cross, bins, patches, all array entri
         "normalised rr were reached; measurement cases (kind meas/...) = (closed side, edges, patch centre gaps, scales, per sample: weight "
         "column, per-patch (redshift, weight, offset) lists, which CorrFunc of the measurement, which of its pair counts), one evaluation per "
         "CorrFunc and one per redshift estimate; non-trivial when the output is finite and some (patch, bin) cell is empty in one sample of a "
-        "container and populated in its partner (the inputs on which a stored weight could depend on the partner sample)")
+        "container and populated in its partner (the inputs on which a stored weight could depend on the partner sample) or some populated "
+        "cell weighs exactly nothing in a bin whose total weight is not zero (histogram meas:populated-cell-of-total-weight-zero-...); "
+        "weight cases (kind label .../mag:weights:<profile>) are hand-built containers whose per-patch weights are zero, negative or cancelling")
 
 
 def est_defined(sub):
